@@ -87,6 +87,9 @@ func c12Worker(args []string) int {
 		s := c.Spec
 		s.Deb.Compression = []string{"zstd", "xz", "", "zstd", "none", "gzip"}[ci%6]
 		s.RPM.Compression = []string{"zstd", "gzip", "xz", "lzma", "", "zstd:19"}[ci%6]
+		if ci%4 == 3 {
+			s.Maintainer = "" // deprecated but valid: deb and ipk print a notice and substitute a placeholder
+		}
 		signed := ci%3 == 1
 		if signed {
 			s.Deb.Sig.KeyFile = testKey("privkey.asc") // passphrase protected
